@@ -703,13 +703,48 @@ func computeSCEVBody(v ssa.Value, loop *Loop, depth int) SCEV {
 	if binOp, ok := v.(*ssa.BinOp); ok {
 		left := computeSCEV(binOp.X, loop, depth+1)
 		right := computeSCEV(binOp.Y, loop, depth+1)
-		return foldSCEV(binOp.Op, left, right, loop)
+		res := foldSCEV(binOp.Op, left, right, loop)
+		// Size guard: operands are shared (x2 := x1 + x1), so the expression is a DAG whose
+		// expansion doubles per level. Everything downstream (invariance checks, evaluation,
+		// rendering) walks the expansion, so an oversized expression is kept opaque instead.
+		if scevNodes(loop, res) > MaxSCEVNodes {
+			return &SCEVUnknown{Value: v, IsInvariant: left.IsLoopInvariant(loop) && right.IsLoopInvariant(loop)}
+		}
+		return res
 	}
 	if instr, ok := v.(ssa.Instruction); ok {
 		block := instr.Block()
 		return &SCEVUnknown{Value: v, IsInvariant: block != nil && !loop.Blocks[block]}
 	}
 	return &SCEVUnknown{Value: v, IsInvariant: true}
+}
+
+// MaxSCEVNodes bounds the size of the expanded tree of one symbolic expression.
+const MaxSCEVNodes = 1024
+
+// scevNodes returns the number of nodes of the expanded tree of s (saturating just above
+// MaxSCEVNodes), memoised per loop so that shared operands are counted in constant time.
+func scevNodes(loop *Loop, s SCEV) int {
+	if loop.scevSizes == nil {
+		loop.scevSizes = make(map[SCEV]int)
+	}
+	if n, ok := loop.scevSizes[s]; ok {
+		return n
+	}
+	n := 1
+	switch e := s.(type) {
+	case *SCEVGenericExpr:
+		n += scevNodes(loop, e.X) + scevNodes(loop, e.Y)
+	case *SCEVMax:
+		n += scevNodes(loop, e.X) + scevNodes(loop, e.Y)
+	case *SCEVAddRec:
+		n += scevNodes(loop, e.Start) + scevNodes(loop, e.Step)
+	}
+	if n > MaxSCEVNodes+1 {
+		n = MaxSCEVNodes + 1
+	}
+	loop.scevSizes[s] = n
+	return n
 }
 
 func SCEVFromConst(c *ssa.Const) SCEV {
